@@ -23,7 +23,7 @@ import sys
 
 REPO = os.environ.get("CHARTPARSE_REPO", "/repo")
 HERE = os.path.dirname(os.path.abspath(__file__))
-GEN = os.path.join(HERE, "..", "coq", "Gen")
+GEN = os.environ.get("LEAF_GEN") or os.path.join(HERE, "..", "coq", "Gen")
 
 WRAPPERS = {"Ticks", "Tick", "Seconds", "Timestamp", "int"}
 
@@ -33,7 +33,15 @@ class LeafError(Exception):
 
 
 # attributes of typed model records
-ATTRS = {"bpm": {"tick": ("b_tick", "int"), "bpm": ("b_bpm", "float"), "timestamp": ("b_ts", "ts")}}
+ATTRS = {"bpm": {"tick": ("b_tick", "int"), "bpm": ("b_bpm", "float"), "timestamp": ("b_ts", "ts"), "_proximal_bpm_event_index": ("b_idx", "int")},
+         "timed": {"tick": ("t_tick", "int"), "timestamp": ("t_ts", "ts"), "_proximal_bpm_event_index": ("t_idx", "int")},
+         "nd": {"tick": ("nd_tick", "int"), "note_track_index": ("nd_idx", "int"), "sustain": ("nd_sus", "int")},
+         "bpmevents": {"resolution": ("resolution", "int")}}
+
+# methods of typed model records: receiver type -> method -> (coq function taking the receiver first, [arg types], result type, monadic?)
+METHODS = {"sp": {"tick_is_after_event": ("leaf_tick_is_after_event", ["int"], "bool", False),
+                  "tick_is_during_event": ("leaf_tick_is_during_event", ["int"], "bool", False)},
+           "bpmevents": {"timestamp_at_tick": ("timestamp_at_tick", ["int", "int"], "tuple:ts,int", True)}}
 
 
 def find_function(tree, qual):
@@ -44,8 +52,7 @@ def find_function(tree, qual):
         node = None
         for n in body:
             if isinstance(n, (ast.FunctionDef, ast.ClassDef)) and n.name == p:
-                node = n
-                break
+                node = n        # the last definition of a name wins (typing.overload stubs come first)
         if node is None:
             raise LeafError("function %s not found" % qual)
         body = node.body
@@ -61,6 +68,7 @@ class Tr:
     def __init__(self, name, env, calls, ret_type):
         self.name, self.env, self.calls, self.ret_type = name, dict(env), dict(calls), ret_type
         self.monadic = False
+        self.narrow = {}
         self.fresh = 0
 
     def err(self, node, why):
@@ -82,6 +90,8 @@ class Tr:
             self.err(e, "constant")
         if isinstance(e, ast.Attribute):
             c, t, m = self.expr(e.value)
+            if t.startswith("some:"):
+                t = t[5:]
             if not m and t in ATTRS and e.attr in ATTRS[t]:
                 fld, ft = ATTRS[t][e.attr]
                 return "(%s %s)" % (fld, c), ft, False
@@ -93,8 +103,20 @@ class Tr:
                 if t.startswith("list:") and not m:
                     return "(Zlength_ %s)" % c, "int", False
                 self.err(e, "len of non-sequence")
+            if fsrc == "int" and len(e.args) == 1 and not e.keywords:
+                c, t, m = self.expr(e.args[0])
+                if t == "str" and not m:
+                    return "(py_int T %s)" % c, "int", True
+                if t == "int":
+                    return c, t, m
+                self.err(e, "int() of %s" % t)
             if fsrc in WRAPPERS and len(e.args) == 1 and not e.keywords:
                 return self.expr(e.args[0])
+            if fsrc == "round" and len(e.args) == 2 and ast.unparse(e.args[1]) == "3":
+                c, t, m = self.expr(e.args[0])
+                if t != "float" or m:
+                    self.err(e, "round(x, 3) of non-float")
+                return "(py_round3 %s)" % c, "float", True
             if fsrc == "abs" and len(e.args) == 1:
                 c, t, m = self.expr(e.args[0])
                 if t != "int" or m:
@@ -107,9 +129,46 @@ class Tr:
                 if m:
                     return "(let* q := %s in py_round_int q)" % c, "int", True
                 return "(py_round_int %s)" % c, "int", True
+            if fsrc == "any" and len(e.args) == 1 and not e.keywords and isinstance(e.args[0], ast.GeneratorExp):
+                g = e.args[0]
+                if len(g.generators) != 1 or g.generators[0].ifs or g.generators[0].is_async or not isinstance(g.generators[0].target, ast.Name):
+                    self.err(e, "generator shape")
+                seq, tseq, mseq = self.expr(g.generators[0].iter)
+                if not tseq.startswith("list:") or mseq:
+                    self.err(e, "any over a non-sequence")
+                v = g.generators[0].target.id
+                saved = dict(self.env)
+                self.env[v] = (v, tseq[5:])
+                c, t, m = self.expr(g.elt)
+                self.env = saved
+                if t != "bool" or m:
+                    self.err(e, "any of a non-boolean or raising test")
+                return "(existsb (fun %s => %s) %s)" % (v, c, seq), "bool", False
+            if isinstance(e.func, ast.Attribute) and fsrc not in self.calls:
+                rc, rt_, rm = self.expr(e.func.value)
+                if not rm and rt_ in METHODS and e.func.attr in METHODS[rt_]:
+                    fn, argts, rt, mon = METHODS[rt_][e.func.attr]
+                    args = list(e.args) + [k.value for k in e.keywords]
+                    if len(args) != len(argts):
+                        self.err(e, "method arity")
+                    cs = [rc]
+                    for a, at in zip(args, argts):
+                        c, t, m = self.expr(a)
+                        if m or t != at:
+                            self.err(a, "method argument (type %s, wanted %s)" % (t, at))
+                        cs.append(c)
+                    return "(%s %s)" % (fn, " ".join(cs)), rt, mon
             if fsrc in self.calls:
-                fn, argts, rt, mon = self.calls[fsrc]
-                args = list(e.args) + [k.value for k in e.keywords]
+                entry = self.calls[fsrc]
+                fn, argts, rt, mon = entry[:4]
+                if len(entry) > 4:
+                    # keyword-only construction: every keyword must be present exactly once, in any order
+                    if e.args or sorted(k.arg or "" for k in e.keywords) != sorted(entry[4]):
+                        self.err(e, "keywords (wanted exactly %s)" % ", ".join(entry[4]))
+                    byname = {k.arg: k.value for k in e.keywords}
+                    args = [byname[k] for k in entry[4]]
+                else:
+                    args = list(e.args) + [k.value for k in e.keywords]
                 if len(args) != len(argts):
                     self.err(e, "call arity")
                 cs = []
@@ -133,6 +192,8 @@ class Tr:
                     return "(%s - %s)" % (a, b), "int", False
                 if op is ast.Mult:
                     return "(%s * %s)" % (a, b), "int", False
+                if op is ast.Pow and a == "2":
+                    return "(2 ^ %s)" % b, "int", False
                 if op is ast.Div:
                     return "(py_truediv_int %s %s)" % (a, b), "float", True
             if ta == "float" and tb == "int":
@@ -170,6 +231,8 @@ class Tr:
             return code, "bool", False
         if isinstance(e, ast.UnaryOp) and isinstance(e.op, ast.Not):
             c, t, m = self.expr(e.operand)
+            if t.startswith("list:") and not m:
+                return "(Zlength_ %s =? 0)" % c, "bool", False
             if t != "bool" or m:
                 self.err(e, "not of non-bool")
             return "(negb %s)" % c, "bool", False
@@ -179,6 +242,27 @@ class Tr:
             if ta.startswith("list:") and ti == "int" and not ma and not mi:
                 return "(seq_get %s %s)" % (a, i), ta[5:], True
             self.err(e, "subscript")
+        if isinstance(e, ast.IfExp):
+            t0 = e.test
+            name = None
+            if isinstance(t0, ast.Name):
+                name = t0.id
+            elif (isinstance(t0, ast.Compare) and len(t0.ops) == 1 and isinstance(t0.ops[0], ast.IsNot) and ast.unparse(t0.comparators[0]) == "None"):
+                name = ast.unparse(t0.left)
+            if name is None or name not in self.env or not self.env[name][1].startswith("opt:"):
+                self.err(e, "conditional expression (only `a if <optional> else b`)")
+            c0, t_opt = self.env[name]
+            saved = dict(self.env)
+            v = "v_%d" % (len(self.env))
+            self.env[name] = (v, t_opt[4:])
+            for k, val in list(self.narrow.get(name, {}).items()):
+                self.env[k] = (val[0].replace(c0, v), val[1]) if isinstance(val, tuple) else val
+            a, ta, ma = self.expr(e.body)
+            self.env = saved
+            b, tb, mb = self.expr(e.orelse)
+            if ma or mb or ta != tb:
+                self.err(e, "conditional expression branches (%s, %s)" % (ta, tb))
+            return "(match %s with Some %s => %s | None => %s end)" % (c0, v, a, b), ta, False
         if isinstance(e, ast.Tuple):
             cs = []
             ts = []
@@ -209,6 +293,11 @@ class Tr:
                 return "(f_le %s fzero)" % a
             if o is ast.Lt:
                 return "(f_lt %s fzero)" % a
+        if ta == "float" and tb == "float":
+            if o is ast.NotEq:
+                return "(negb (f_eq %s %s))" % (a, b)
+            if o is ast.Eq:
+                return "(f_eq %s %s)" % (a, b)
         if ta == "bool" and tb == "bool":
             if o is ast.NotEq:
                 return "(negb (Bool.eqb %s %s))" % (a, b)
@@ -221,13 +310,84 @@ class Tr:
                 return "(lanes_eqb %s %s)" % (a, b)
         self.err(whole, "comparison on (%s, %s)" % (ta, tb))
 
+    # ---- sequencing of sub-expressions that can raise -------------------------------------------
+    def lifted(self, e):
+        """(binds, code, type, monadic): `X.attr`, `X.method(..)` and `not ...` whose X can raise (an indexing) are sequenced
+        through fresh let*-bound names, left to right; everything else is `expr`."""
+        binds = []
+
+        def atom(x):
+            c, t, m = self.expr(x)
+            if m:
+                self.fresh += 1
+                v = "x%d" % self.fresh
+                binds.append((v, c))
+                self.env["__tmp_" + v] = (v, t)
+                return ast.Name(id="__tmp_" + v, ctx=ast.Load())
+            return x
+
+        def walk(x):
+            # monadic sub-expressions in strict (always evaluated) positions are bound first, in evaluation order
+            if ast.unparse(x) in self.env:
+                return x
+            if isinstance(x, ast.UnaryOp) and isinstance(x.op, ast.Not):
+                return ast.UnaryOp(op=x.op, operand=walk(x.operand))
+            if isinstance(x, ast.Attribute):
+                return ast.Attribute(value=lift(x.value), attr=x.attr, ctx=ast.Load())
+            if isinstance(x, ast.Call):
+                func = x.func
+                fsrc = ast.unparse(func)
+                if fsrc in WRAPPERS and len(x.args) == 1 and not x.keywords:
+                    return ast.Call(func=func, args=[walk(x.args[0])], keywords=[])      # NewType wrappers are transparent
+                if isinstance(func, ast.Attribute) and fsrc not in self.calls:
+                    func = ast.Attribute(value=lift(func.value), attr=func.attr, ctx=ast.Load())
+                if any(isinstance(a, ast.GeneratorExp) for a in x.args):
+                    return x
+                return ast.Call(func=func, args=[lift(a) for a in x.args], keywords=[ast.keyword(arg=k.arg, value=lift(k.value)) for k in x.keywords])
+            if isinstance(x, ast.BinOp):
+                l = lift(x.left)
+                return ast.BinOp(left=l, op=x.op, right=lift(x.right))
+            if isinstance(x, ast.Compare):
+                l = lift(x.left)
+                return ast.Compare(left=l, ops=x.ops, comparators=[lift(c) for c in x.comparators])
+            if isinstance(x, ast.Tuple):
+                return ast.Tuple(elts=[lift(v) for v in x.elts], ctx=ast.Load())
+            if isinstance(x, ast.Subscript):
+                return ast.Subscript(value=lift(x.value), slice=lift(x.slice), ctx=ast.Load())
+            return x        # names, constants, and the short-circuit forms (and/or, conditional expression): untouched
+
+        def lift(x):
+            if ast.unparse(x) in self.env or isinstance(x, (ast.Name, ast.Constant)):
+                return x
+            y = walk(x)
+            c, t, m = self.expr(y)
+            if m:
+                self.fresh += 1
+                v = "x%d" % self.fresh
+                binds.append((v, c))
+                self.env["__tmp_" + v] = (v, t)
+                return ast.Name(id="__tmp_" + v, ctx=ast.Load())
+            return y
+        c, t, m = self.expr(walk(e))
+        return binds, c, t, m
+
+    @staticmethod
+    def wrap(binds, code):
+        for v, c in reversed(binds):
+            code = "let* %s := %s in\n  %s" % (v, c, code)
+        return code
+
     # ---- statements ----------------------------------------------------------------------------
     def ret(self, e):
-        c, t, m = self.expr(e)
-        return c if m else ("Ok %s" % c if self.monadic_fn else c)
+        binds, c, t, m = self.lifted(e)
+        if binds and not self.monadic_fn:
+            self.err(e, "raising sub-expression in a total function")
+        return self.wrap(binds, c if m else ("Ok %s" % c if self.monadic_fn else c))
 
     def block(self, stmts):
         if not stmts:
+            if getattr(self, "procedure", False):
+                return "Ok tt"
             raise LeafError("%s: control reaches the end of a block without return" % self.name)
         s, rest = stmts[0], stmts[1:]
         if isinstance(s, ast.Expr) and isinstance(s.value, ast.Constant) and isinstance(s.value.value, str):
@@ -235,20 +395,134 @@ class Tr:
         if isinstance(s, ast.Return):
             if rest:
                 self.err(s, "code after return")
+            self.env_after = {k: v[1] for k, v in self.env.items()}
             return self.ret(s.value)
         if isinstance(s, ast.Raise):
             exc = ast.unparse(s.exc.func if isinstance(s.exc, ast.Call) else s.exc)
             if exc != "ValueError":
                 self.err(s, "raise of %s" % exc)
             return "Err EValue"
-        if isinstance(s, (ast.Assign, ast.AnnAssign)):
+        if isinstance(s, (ast.Assign, ast.AnnAssign)) and not isinstance(s.value, ast.List):
             tgt = s.targets[0] if isinstance(s, ast.Assign) else s.target
-            if not isinstance(tgt, ast.Name) or (isinstance(s, ast.Assign) and len(s.targets) != 1):
+            if isinstance(s, ast.Assign) and len(s.targets) != 1:
                 self.err(s, "assignment target")
-            c, t, m = self.expr(s.value)
+            binds, c, t, m = self.lifted(s.value)
+            if isinstance(tgt, ast.Tuple):
+                # a, b = <call returning a tuple>
+                if not t.startswith("tuple:") or not all(isinstance(x, ast.Name) for x in tgt.elts):
+                    self.err(s, "tuple assignment")
+                ts = t[6:].split(",")
+                if len(ts) != len(tgt.elts):
+                    self.err(s, "tuple assignment arity")
+                names = []
+                for x, tx in zip(tgt.elts, ts):
+                    if x.id == "_":
+                        names.append("_")
+                    else:
+                        self.env[x.id] = (x.id, tx)
+                        names.append(x.id)
+                k = self.block(rest)
+                pat = "(%s)" % ", ".join(names)
+                return self.wrap(binds, ("let* %s := %s in\n  %s" if m else "let '%s := %s in\n  %s") % (pat, c, k))
+            if not isinstance(tgt, ast.Name):
+                self.err(s, "assignment target")
             self.env[tgt.id] = (tgt.id, t)
             k = self.block(rest)
-            return ("let* %s := %s in\n  %s" if m else "let %s := %s in\n  %s") % (tgt.id, c, k)
+            return self.wrap(binds, ("let* %s := %s in\n  %s" if m else "let %s := %s in\n  %s") % (tgt.id, c, k))
+        # events = []
+        # for D in DATAS:
+        #     P = events[-1] if events else None
+        #     events.append(F(..D..P..))
+        # <rest reads events>
+        if (isinstance(s, (ast.Assign, ast.AnnAssign)) and isinstance(s.value, ast.List) and not s.value.elts and len(rest) >= 2 and isinstance(rest[0], ast.For)):
+            acc = (s.targets[0] if isinstance(s, ast.Assign) else s.target)
+            f = rest[0]
+            if (isinstance(acc, ast.Name) and isinstance(f.target, ast.Name) and not f.orelse and len(f.body) == 2
+                    and isinstance(f.body[0], ast.Assign) and len(f.body[0].targets) == 1 and isinstance(f.body[0].targets[0], ast.Name)
+                    and ast.unparse(f.body[0].value) == "%s[-1] if %s else None" % (acc.id, acc.id)
+                    and isinstance(f.body[1], ast.Expr) and isinstance(f.body[1].value, ast.Call)
+                    and ast.unparse(f.body[1].value.func) == acc.id + ".append" and len(f.body[1].value.args) == 1 and not f.body[1].value.keywords):
+                seq, tseq, mseq = self.expr(f.iter)
+                if not tseq.startswith("list:") or mseq:
+                    self.err(f, "loop over a non-sequence")
+                d, pv = f.target.id, f.body[0].targets[0].id
+                call = f.body[1].value.args[0]
+                # the element type is the result type of the call; the previous element is an optional of it
+                saved = dict(self.env)
+                self.env[d] = (d, tseq[5:])
+                rt = self.fold_result_type(call)
+                self.env[pv] = (pv, "opt:" + rt)
+                binds, c, t, m = self.lifted(call)
+                self.env = saved
+                if t != rt or any(ast.unparse(n) == acc.id for n in ast.walk(call) if isinstance(n, ast.Name)):
+                    self.err(f, "loop body")
+                body = self.wrap(binds, c if m else "Ok %s" % c).replace("\n  ", " ")
+                self.env[acc.id] = (acc.id, "list:" + rt)
+                k = self.block(rest[1:])
+                return "let* %s := fold_prev (fun %s %s => %s) %s in\n  %s" % (acc.id, d, pv, body, seq, k)
+            self.err(s, "accumulation loop shape")
+        # if C: <assignments> else: <assignments>   followed by code: the branches are joined on the names both assign
+        if isinstance(s, ast.If) and s.orelse and rest:
+            def assigned(stmts):
+                names = []
+                for st in stmts:
+                    if isinstance(st, ast.Assign) and len(st.targets) == 1:
+                        tg = st.targets[0]
+                        for n in (tg.elts if isinstance(tg, ast.Tuple) else [tg]):
+                            if isinstance(n, ast.Name) and n.id not in names:
+                                names.append(n.id)
+                    elif isinstance(st, ast.If):
+                        for n in assigned(st.body) + assigned(st.orelse):
+                            if n not in names:
+                                names.append(n)
+                return names
+            a_then, a_else = assigned(s.body), assigned(s.orelse)
+            joined = [n for n in a_then if n in a_else]
+            if not joined:
+                self.err(s, "if/else followed by code, with no commonly assigned name")
+            synth = ast.Return(value=ast.Tuple(elts=[ast.Name(id=n, ctx=ast.Load()) for n in joined], ctx=ast.Load()) if len(joined) > 1
+                               else ast.Name(id=joined[0], ctx=ast.Load()))
+            saved_m, self.monadic_fn = self.monadic_fn, True
+            saved_p, self.procedure = getattr(self, "procedure", False), False
+            t = s.test
+            env0 = dict(self.env)
+            types = {}
+            def branch(stmts):
+                self.env = dict(env0)
+                code = self.block(list(stmts) + [synth])
+                for n in joined:
+                    types.setdefault(n, []).append(self.env_after.get(n))
+                return code
+            if (isinstance(t, ast.Compare) and len(t.ops) == 1 and isinstance(t.ops[0], ast.Is) and ast.unparse(t.comparators[0]) == "None"
+                    and ast.unparse(t.left) in self.env and self.env[ast.unparse(t.left)][1].startswith("opt:")):
+                name = ast.unparse(t.left)
+                c0, t0 = self.env[name]
+                then = branch(s.body)
+                self.env = dict(env0)
+                env0_else = dict(env0)
+                env0_else[name] = (c0, "some:" + t0[4:])
+                for k2, v2 in list(self.narrow.get(name, {}).items()):
+                    env0_else[k2] = v2
+                saved_env0 = env0
+                env0 = env0_else
+                els = branch(s.orelse)
+                env0 = saved_env0
+                code = "match %s with\n  | None => %s\n  | Some %s =>\n  %s\n  end" % (c0, then, c0, els)
+            else:
+                binds, c, ty, m = self.lifted(t)
+                if ty != "bool" or m or binds:
+                    self.err(t, "condition")
+                code = "if %s then %s else %s" % (c, branch(s.body), branch(s.orelse))
+            self.monadic_fn, self.procedure = saved_m, saved_p
+            self.env = dict(env0)
+            for n in joined:
+                ts_ = types.get(n, [])
+                if len(ts_) != 2 or ts_[0] is None or ts_[0] != ts_[1]:
+                    self.err(s, "joined name %s has different types in the two branches (%s)" % (n, ts_))
+                self.env[n] = (n, ts_[0])
+            k = self.block(rest)
+            pat = "(%s)" % ", ".join(joined) if len(joined) > 1 else joined[0]
+            return "let* %s := (%s) in\n  %s" % (pat, code, k)
         if isinstance(s, ast.For):
             # for V in range(A, B):  if C: return V      followed by      return D
             if (isinstance(s.target, ast.Name) and isinstance(s.iter, ast.Call) and ast.unparse(s.iter.func) == "range" and len(s.iter.args) == 2
@@ -266,6 +540,24 @@ class Tr:
                 self.env = saved
                 d = self.ret(rest[0].value)
                 return "for_first %s %s (fun %s => %s) (%s)" % (a, b, s.target.id, test, d)
+            # for V in range(A, B):  if C: break       followed by code that reads V (the loop variable outlives the loop)
+            if (isinstance(s.target, ast.Name) and isinstance(s.iter, ast.Call) and ast.unparse(s.iter.func) == "range" and len(s.iter.args) == 2
+                    and not s.orelse and len(s.body) == 1 and isinstance(s.body[0], ast.If) and not s.body[0].orelse
+                    and len(s.body[0].body) == 1 and isinstance(s.body[0].body[0], ast.Break) and rest):
+                a, ta, ma = self.expr(s.iter.args[0])
+                b, tb, mb = self.expr(s.iter.args[1])
+                if ta != "int" or tb != "int" or ma or mb:
+                    self.err(s, "range bounds")
+                v = s.target.id
+                if v in self.env:
+                    self.err(s, "loop variable shadows a name")
+                self.env[v] = (v, "int")
+                binds, c, t, m = self.lifted(s.body[0].test)
+                if t != "bool" or m:
+                    self.err(s.body[0].test, "loop test")
+                test = self.wrap(binds, "Ok %s" % c).replace("\n  ", " ")
+                k = self.block(rest)
+                return "let* %s := for_break %s %s (fun %s => %s) in\n  %s" % (v, a, b, v, test, k)
             self.err(s, "for loop shape")
         if isinstance(s, ast.If):
             # narrowing:  if x is None: <returns>   =>   match x with None => … | Some x => rest end
@@ -282,15 +574,15 @@ class Tr:
                 k = self.block(rest)
                 self.env = saved
                 return "match %s with\n  | None => %s\n  | Some %s =>\n  %s\n  end" % (c0, then, c0, k)
-            c, ty, m = self.expr(t)
+            binds, c, ty, m = self.lifted(t)
             if ty != "bool" or m:
                 self.err(t, "condition")
             then = self.block(s.body)
             if s.orelse:
                 if rest:
                     self.err(s, "code after if/else")
-                return "if %s then %s else %s" % (c, then, self.block(s.orelse))
-            return "if %s then %s else\n  %s" % (c, then, self.block(rest))
+                return self.wrap(binds, "if %s then %s else %s" % (c, then, self.block(s.orelse)))
+            return self.wrap(binds, "if %s then %s else\n  %s" % (c, then, self.block(rest)))
         self.err(s, "statement")
 
     def cond_result(self, test):
@@ -325,8 +617,16 @@ class Tr:
             self.err(test, "loop test")
         return "Ok %s" % c
 
-    def function(self, fn, params, monadic_fn, narrow=None):
+    def fold_result_type(self, call):
+        fsrc = ast.unparse(call.func)
+        if fsrc in self.calls:
+            return self.calls[fsrc][2]
+        self.err(call, "callee of the accumulation loop")
+
+    def function(self, fn, params, monadic_fn, narrow=None, procedure=False):
         self.monadic_fn = monadic_fn
+        self.procedure = procedure
+        self.env_after = {}
         self.narrow = narrow or {}
         body = self.block(fn.body)
         return "Definition %s %s :=\n  %s." % (self.name, " ".join("(%s : %s)" % p for p in params), body)
@@ -423,10 +723,136 @@ def group_query():
     return out
 
 
+def group_note():
+    tree = ast.parse(open(os.path.join(REPO, "chartparse", "instrument.py")).read())
+    out = []
+    # NoteEvent._compute_star_power_data
+    f = find_function(tree, "NoteEvent._compute_star_power_data")
+    env = {"tick": ("tick", "int"), "star_power_events": ("sps", "list:sp"), "proximal_star_power_event_index": ("i", "int")}
+    calls = {"StarPowerData": ("Some", ["int"], "opt:int", False, ["star_power_event_index"])}
+    out.append(Tr("leaf_compute_sp", env, calls, "tuple").function(f, [("tick", "Z"), ("sps", "list special_event"), ("i", "Z")], True))
+    # NoteEvent.from_parsed_data: the order in which a note event's parts are computed and which hint feeds which query
+    f = find_function(tree, "NoteEvent.from_parsed_data")
+    idx = lambda m: str(enum_int(tree, "NoteTrackIndex", m))
+    env = {"datas": ("datas", "list:nd"), "prev_event": ("(option_map (fun p => (n_tick p, n_note p)) prev_event)", "opt:prev"),
+           "star_power_events": ("sps", "list:sp"), "bpm_events": ("B", "bpmevents"),
+           "proximal_bpm_event_index": ("hint", "int"), "star_power_event_index": ("cursor", "int"),
+           "NoteTrackIndex.TAP": (idx("TAP"), "int"), "NoteTrackIndex.FORCED": (idx("FORCED"), "int")}
+    calls = {"Note.from_parsed_datas": ("lanes_of", ["list:nd"], "lanes", False),
+             "complex_sustain_from_parsed_datas": ("complex_sustain", ["list:nd"], "sustain", True),
+             "NoteEvent._compute_hopo_state": ("compute_hopo c", ["int", "int", "lanes", "bool", "bool", "opt:prev"], "hopo", True),
+             "NoteEvent._compute_star_power_data": ("compute_sp_py", ["int", "list:sp", "int"], "tuple:opt:int,int", True),
+             "cls._longest_sustain": ("longest_sustain", ["sustain"], "int", True),
+             "cls._end_tick": ("leaf_note_end_tick", ["int", "int"], "int", False),
+             "cls": ("mk_note_event", ["int", "ts", "ts", "lanes", "hopo", "sustain", "opt:int", "int"], "note_event", False,
+                     ["tick", "timestamp", "end_timestamp", "note", "hopo_state", "sustain", "star_power_data", "_proximal_bpm_event_index"])}
+    t = Tr("leaf_note_from_parsed_data", env, calls, "tuple")
+    out.append(t.function(f, [("c", "cfg"), ("datas", "list ndata"), ("prev_event", "option note_event"), ("sps", "list special_event"),
+                              ("B", "bpm_events"), ("hint", "Z"), ("cursor", "Z")], True))
+    return out
+
+
+def group_bpm():
+    sync = ast.parse(open(os.path.join(REPO, "chartparse", "sync.py")).read())
+    track = ast.parse(open(os.path.join(REPO, "chartparse", "track.py")).read())
+    out = []
+    # BPMEvent.__post_init__
+    f = find_function(sync, "BPMEvent.__post_init__")
+    out.append(Tr("leaf_bpm_post_init", {"self.bpm": ("bpm", "float")}, {}, "unit").function(f, [("bpm", "f64")], True, procedure=True))
+    # BPMEvent.from_parsed_data
+    f = find_function(sync, "BPMEvent.from_parsed_data")
+    env = {"data.tick": ("tick", "int"), "data.raw_bpm": ("raw", "str"), "prev_event": ("prev_event", "opt:bpm"), "resolution": ("resolution", "int"),
+           "timedelta(0)": ("0", "ts")}
+    calls = {"chartparse.tick.between": ("leaf_tick_between", ["int", "int"], "int", False),
+             "chartparse.tick.seconds_from_ticks_at_bpm": ("leaf_seconds", ["int", "float", "int"], "float", True),
+             "timedelta": ("td_of_seconds", ["float"], "td", True, ["seconds"]),
+             "chartparse.time.add": ("td_add", ["ts", "td"], "ts", True),
+             "cls": ("mk_bpm_event", ["int", "ts", "float", "int"], "bpm", True, ["tick", "timestamp", "bpm", "_proximal_bpm_event_index"])}
+    out.append(Tr("leaf_bpm_from_parsed_data", env, calls, "bpm").function(
+        f, [("T", "tables"), ("tick", "Z"), ("raw", "str"), ("prev_event", "option bpm_event"), ("resolution", "Z")], True))
+    # BPMEvents.__post_init__
+    f = find_function(sync, "BPMEvents.__post_init__")
+    env = {"self.resolution": ("resolution", "int"), "self.events": ("events", "list:bpm")}
+    out.append(Tr("leaf_bpm_events_post_init", env, {}, "unit").function(f, [("events", "list bpm_event"), ("resolution", "Z")], True, procedure=True))
+    # track.build_events_from_data.data_to_bpm_events: the accumulation loop that hands each event the previous one
+    f = find_function(track, "build_events_from_data.data_to_bpm_events")
+    env = {"datas": ("datas", "list:bpmdata"), "resolution": ("resolution", "int")}
+    calls = {"BPMEvent.from_parsed_data": ("bpm_from_data_py T", ["bpmdata", "opt:bpm", "int"], "bpm", True),
+             "BPMEvents": ("mk_bpm_events", ["list:bpm", "int"], "bpmevents", True, ["events", "resolution"])}
+    out.append(Tr("leaf_data_to_bpm_events", env, calls, "bpmevents").function(
+        f, [("T", "tables"), ("datas", "list (Z * str)"), ("resolution", "Z")], True))
+    # BPMEvents.timestamp_at_tick_no_optimize_return
+    f = find_function(sync, "BPMEvents.timestamp_at_tick_no_optimize_return")
+    calls = {"self.timestamp_at_tick": ("timestamp_at_tick_d B", ["int"], "tuple:ts,int", True)}
+    out.append(Tr("leaf_timestamp_at_tick_no_optimize_return", {"tick": ("tick", "int")}, calls, "ts").function(f, [("B", "bpm_events"), ("tick", "Z")], True))
+    return out
+
+
+BPM_HEADER = """From CP Require Import Base.Prelude Base.Str Base.Cfg Base.Loops Base.Float64 Base.Timedelta Model.Sync Gen.Leaf_tick.
+Open Scope Z_scope.
+(* argument shapes of the source's call sites; the constructors run the classes' __post_init__ validation *)
+Definition mk_bpm_event (tick ts : Z) (bpm : f64) (idx : Z) : result bpm_event :=
+  let* _ := check_bpm_3dp bpm in Ok {| b_tick := tick; b_ts := ts; b_bpm := bpm; b_idx := idx |}.
+Definition bpm_from_data_py (T : tables) (d : Z * str) (prev : option bpm_event) (R : Z) := bpm_from_data T (fst d) (snd d) prev R.
+Definition timestamp_at_tick_d (B : bpm_events) (tick : Z) := timestamp_at_tick B tick 0.
+"""
+
+
+def group_timed():
+    out = []
+    glob = ast.parse(open(os.path.join(REPO, "chartparse", "globalevents.py")).read())
+    instr = ast.parse(open(os.path.join(REPO, "chartparse", "instrument.py")).read())
+    sync = ast.parse(open(os.path.join(REPO, "chartparse", "sync.py")).read())
+    track = ast.parse(open(os.path.join(REPO, "chartparse", "track.py")).read())
+    base_env = {"data.tick": ("tick", "int"), "prev_event": ("prev_event", "opt:timed"), "bpm_events": ("B", "bpmevents")}
+    # GlobalEvent / TrackEvent (tick, value), SpecialEvent (tick, sustain)
+    for qual, tree, name, fld, fty, coqty in (("GlobalEvent.from_parsed_data", glob, "leaf_global_from_parsed_data", "value", "str", "str"),
+                                              ("TrackEvent.from_parsed_data", instr, "leaf_track_event_from_parsed_data", "value", "str", "str"),
+                                              ("SpecialEvent.from_parsed_data", instr, "leaf_special_from_parsed_data", "sustain", "int", "Z")):
+        f = find_function(tree, qual)
+        env = dict(base_env)
+        env["data." + fld] = ("payload", fty)
+        calls = {"cls": ("mk_timed_with", ["int", "ts", fty, "int"], "timedwith", False, ["tick", "timestamp", fld, "_proximal_bpm_event_index"])}
+        out.append(Tr(name, env, calls, "timedwith").function(f, [("tick", "Z"), ("payload", coqty), ("prev_event", "option timed"), ("B", "bpm_events")], True))
+    # TimeSignatureEvent (tick, upper, lower | None, class default)
+    f = find_function(sync, "TimeSignatureEvent.from_parsed_data")
+    env = dict(base_env)
+    env.update({"data.upper": ("upper", "int"), "data.lower": ("lower", "opt:int"), "cls._default_lower_numeral": ("dflt", "int")})
+    calls = {"cls": ("mk_ts_event", ["int", "ts", "int", "int", "int"], "tsevent", False, ["tick", "timestamp", "upper_numeral", "lower_numeral", "_proximal_bpm_event_index"])}
+    out.append(Tr("leaf_ts_from_parsed_data", env, calls, "tsevent").function(
+        f, [("dflt", "Z"), ("tick", "Z"), ("upper", "Z"), ("lower", "option Z"), ("prev_event", "option timed"), ("B", "bpm_events")], True))
+    # track.build_events_from_data.data_to_events: the accumulation loop shared by every tempo-map-needing event kind
+    f = find_function(track, "build_events_from_data.data_to_events")
+    env = {"datas": ("datas", "list:A"), "bpm_events": ("B", "bpmevents")}
+    calls = {"event_type.from_parsed_data": ("from_pd", ["A", "opt:E", "bpmevents"], "E", True)}
+    out.append(Tr("leaf_data_to_events", env, calls, "list:E").function(
+        f, [("A", "Type"), ("E", "Type"), ("from_pd", "A -> option E -> bpm_events -> result E"), ("datas", "list A"), ("B", "bpm_events")], True))
+    return out
+
+
+TIMED_HEADER = """From CP Require Import Base.Prelude Base.Str Base.Cfg Base.Loops Base.Float64 Base.Timedelta Model.Sync.
+Open Scope Z_scope.
+(* the records the source's keyword constructions denote: the timed part of an event and its payload *)
+Definition mk_timed_with {P : Type} (tick ts : Z) (payload : P) (idx : Z) : timed * P := ({| t_tick := tick; t_ts := ts; t_idx := idx |}, payload).
+Definition mk_ts_event (tick ts upper lower idx : Z) : ts_event := {| ts_at := {| t_tick := tick; t_ts := ts; t_idx := idx |}; ts_upper := upper; ts_lower := lower |}.
+"""
+
+
+NOTE_HEADER = """From CP Require Import Base.Prelude Base.Cfg Base.Loops Base.Float64 Base.Timedelta Model.Sync Model.Instrument Gen.Leaf_tick Gen.Leaf_special.
+Open Scope Z_scope.
+(* argument order of the source's call sites; the record constructor the source's keyword construction denotes *)
+Definition compute_sp_py (tick : Z) (sps : list special_event) (i : Z) := compute_sp sps tick i.
+Definition mk_note_event (tick ts end_ts : Z) (note : list bool) (h : hopo) (sus : sustain) (spd : option Z) (idx : Z) : note_event :=
+  {| n_at := {| t_tick := tick; t_ts := ts; t_idx := idx |}; n_end_ts := end_ts; n_note := note; n_sustain := sus; n_hopo := h; n_sp := spd |}.
+"""
+
 GROUPS = [
     ("Leaf_tick", group_tick, "From CP Require Import Base.Prelude Base.Float64.\nOpen Scope Z_scope.\n"),
     ("Leaf_special", group_special, "From CP Require Import Base.Prelude Base.Float64 Model.Sync Model.Instrument Gen.Leaf_tick.\nOpen Scope Z_scope.\n"),
     ("Leaf_hopo", group_hopo, "From CP Require Import Base.Prelude Base.Float64 Model.Sync Model.Instrument Gen.Leaf_tick Gen.Leaf_special.\nOpen Scope Z_scope.\n"),
+    ("Leaf_note", group_note, NOTE_HEADER),
+    ("Leaf_bpm", group_bpm, BPM_HEADER),
+    ("Leaf_timed", group_timed, TIMED_HEADER),
     ("Leaf_query", group_query, "From CP Require Import Base.Prelude Base.Loops Base.Float64 Base.Timedelta Model.Sync Gen.Leaf_tick.\nOpen Scope Z_scope.\n"),
 ]
 
@@ -448,7 +874,7 @@ def main():
     for name, fn, header in GROUPS:
         try:
             defs = fn()
-            text = "(* GENERATED by tools/extract_leaf.py from %s — do not edit *)\n%s\n%s\n" % (REPO, header, "\n\n".join(defs))
+            text = "(* GENERATED by tools/extract_leaf.py from the working tree of the repository — do not edit *)\n%s\n%s\n" % (header, "\n\n".join(defs))
             info["groups"][name] = {"ok": True, "definitions": len(defs)}
         except (LeafError, OSError, SyntaxError) as e:
             text = "(* GENERATED by tools/extract_leaf.py: translation FAILED (fail-closed): %s *)\n" % str(e).replace("*)", "* )").replace('"', "'")
